@@ -38,6 +38,9 @@ def build(chk):
     c_init(chk)
     from .common import hydro_frame
     hydro_frame(chk)
+    from . import C15_template as T15
+    T15.c_template_matching(chk)
+    T15.template_frame(chk) if hasattr(T15, 'template_frame') else None
 
 
 def c_deflag(chk):
@@ -424,7 +427,7 @@ def c_init(chk):
         for i, p in enumerate(rets):
             a = p.state["hy"].attrs
             th = p.state["th"]
-            T0 = real("Tnucl")
+            T0 = th.attrs["Tnucl"]          # the value of the shared object at construction time
             chk.vc(f"Hydrodynamics.__init__.{tag}.vJ.{i}", p.pc, Eq(a["vJ"], vJf if vj_ok else real("template.vJ")), func=fn)
             mv = [e for e in p.events if e.get("name") == "minVelocity"]
             chk.vc(f"Hydrodynamics.__init__.{tag}.vMin.{i}", p.pc,
